@@ -675,6 +675,7 @@ pub fn c17_serde(reg: &Registry, cfg: &Cfg, out: &mut Out) {
     let mut salt = cfg.seed as usize;
     for s in &reg.serde {
         let t = reg.ty(s.t).unwrap();
+        out.ev("SerdeNames", (s.names)());
         for u in 0..t.n_units() {
             salt += 1;
             let mut am = if cfg.thorough { amounts.clone() } else { rotate(&amounts, salt * 5, 8) };
